@@ -125,7 +125,7 @@ def run(ctx: Ctx) -> None:
 
     with Taps(ctx) as taps:
         install_counters(taps, ctx)
-        for idx in ctx.indices("results", 300 if ctx.quick else 12000):
+        for idx in ctx.indices("results", 300 if ctx.quick else 30000):
             r = ctx.rng("results", idx)
             c = matching.gen_matching_case(r, max_n=24, force_2d=False)
             kw = c["kwargs"]
@@ -160,7 +160,7 @@ def run(ctx: Ctx) -> None:
                     ctx.case(("results_grid", str(mode), c["case"]["policy"], min(flips, 3)), nontrivial=flips > 0)
 
         # ---- through the manager: several thresholds at once, frame and scene level ----
-        for idx in ctx.indices("manager", 60 if ctx.quick else 2000):
+        for idx in ctx.indices("manager", 60 if ctx.quick else 8000):
             r = ctx.rng("manager", idx)
             chains = {
                 "center_distance_thresholds": sorted(round(r.uniform(0.1, 4.0), 3) for _ in range(3)),
